@@ -21,6 +21,9 @@ class MemoryPoolList {
   };
 
   static_assert(sizeof(FreeSlot) <= sizeof(T), "T is too small");
+#ifdef BBLANCHON_ARDUINOJSON_VERIF
+  friend struct ::ArduinoJsonVerifInspector;
+#endif
 
  public:
   using Pool = MemoryPool<T>;
